@@ -457,7 +457,7 @@ impl Property for C20 {
     fn runs(&self, tier: Tier) -> usize {
         match tier {
             Tier::Quick => 50_000,
-            Tier::Thorough => 400_000,
+            Tier::Thorough => 3_000_000,
         }
     }
 
